@@ -96,7 +96,10 @@ func (c *webClient) Username() string {
 
 func (c *webClient) Init(username string, perms []string) {
 	c.username = username
-	c.permissions = perms
+	// the permission list is edited in place by the op/unop/...
+	// actions: keep a private copy, perms may be shared with the
+	// group description, a token, or the table of roles
+	c.permissions = slices.Clone(perms)
 }
 
 func (c *webClient) Permissions() []string {
